@@ -39,6 +39,7 @@ INFO = {
         'clause and skipped if renamed; the behavioural residue test (late pierce, late CannotConnect) does not need them',
     ],
 }
+INFO['rule'] += ' Later additions: the connect-back matrix also offers no usable port (64 cells).'
 
 MODES = ('fallback', 'race')
 DIRECT = ('fast', 'slow', 'refused', 'blackhole', 'reset_on_connect')
